@@ -119,8 +119,21 @@ fn datasets() -> Vec<DataSet> {
             }
         }
     }
+    // Several items of every type, so that a selection can leave out the
+    // first, a middle or the last one of a list: all origins with three
+    // keys and three ASPAs (index MULTI), then ASPAs only and keys only.
+    for (origins, keys, aspas) in [(true, true, true), (false, false, true), (false, true, false)] {
+        let mut ds = DataSet::default();
+        if origins { for x in o { ds.origins.insert(x); } }
+        if keys { for asn in 1..=3u32 { ds.keys.insert(data::router_key(7 + asn as u8, asn, b"\x30\x13key")); } }
+        if aspas { for c in 1..=3u32 { ds.aspas.insert(c.into(), data::aspa(0, &[10 + c, 20 + c]).providers); } }
+        res.push(ds);
+    }
     res
 }
+
+/// Index of the data set with several items of every type.
+const MULTI: usize = 60;
 
 /// The reference selection.
 fn admitted(ds: &DataSet, sel: &Sel, excl: u8, format: &str) -> Vec<Payload> {
@@ -637,21 +650,30 @@ pub fn run(_ctx: &Ctx) -> Report {
         let mut viol = Vec::new();
         let mut n = 0;
         if d % 4 != 0 { return (n, viol) }
+        // The server's outputs start from the configuration: a payload
+        // type that is switched off there is excluded without being asked
+        // for. All four settings for the richest data set, both on else.
+        let flags: &[(bool, bool)] = if d == MULTI { &[(true, true), (true, false), (false, true), (false, false)] } else { &[(true, true)] };
+        for &(bgpsec, aspa) in flags {
         let mut config = data::mem_config();
-        config.enable_bgpsec = true;
-        config.enable_aspa = true;
+        config.enable_bgpsec = bgpsec;
+        config.enable_aspa = aspa;
+        let by_config = (if bgpsec { 0 } else { 2 }) | (if aspa { 0 } else { 4 });
         let history = SharedHistory::from_config(&config);
         data::install(&history, &config, &dss[d]);
         history.mark_update_done();
         let httpd = Httpd::new(&config, history);
         for (si, sel) in sels.iter().enumerate() {
             if sel.more && sel.prefixes.is_empty() && sel.asns.is_empty() { continue }
-            for excl in 0..8u8 {
+            for asked in 0..8u8 {
+                let excl = asked | by_config;
+                if by_config != 0 && asked & by_config != 0 { continue }
                 for f in FORMATS {
                     n += 1;
-                    let q = query_for(sel, excl);
+                    let q = query_for(sel, asked);
                     let uri = if q.is_empty() { format!("/{f}") } else { format!("/{f}?{q}") };
                     let ans = httpd.get(&uri, &[]);
+                    let uri = if by_config == 0 { uri } else { format!("{uri} (enable-bgpsec={bgpsec} enable-aspa={aspa})") };
                     if ans.status != 200 {
                         viol.push((format!("http-status:{f}"), format!("{uri}: status {}", ans.status), d, si, excl, f));
                         continue
@@ -668,6 +690,7 @@ pub fn run(_ctx: &Ctx) -> Report {
                     }
                 }
             }
+        }
         }
         (n, viol)
     });
